@@ -139,6 +139,10 @@ class ExprGen:
         x = r.random()
         if self.allow_random and r.random() < 0.08:
             return ("bin", r.choice(["&", "*", "|", "+"]), ("num", r.choice([0, 0, 1])), ("fn", "random", [self.rbound()]))
+        if self.allow_random and self.allow_div and r.random() < 0.06:
+            # both operands draw (left first), or the right one is zero AFTER the left one has drawn
+            right = r.choice([("fn", "random", [self.rbound()]), ("num", 0), ("bin", "-", ("num", 1), ("num", 1))])
+            return ("bin", r.choice(["/", "%", "-", "<<"]), ("fn", "random", [self.rbound()]), right)
         if x < 0.65:
             ops = BINOPS if self.allow_div else [o for o in BINOPS if o not in "/%"]
             op = r.choice(ops)
@@ -272,6 +276,9 @@ class ProgGen:
             dead = sorted(set(d for d in self.dead if d not in scope))
             self.rng.shuffle(dead)
             outs = list(outs) + dead[:2]
+        if p.get("read_virtual", 0) > 0 and self.virtuals and self.rng.random() < p["read_virtual"]:
+            # a declared signal is not an output of the device: reading it in an expression cannot bind
+            outs = list(outs) + [self.rng.choice(self.virtuals)]
         eg = ExprGen(self.rng, vars_=scope, outs=outs,
                      allow_random=(p.get("random", 0) > 0) if allow_random is None else allow_random,
                      allow_div=p.get("div", True), small=p.get("small", True),
@@ -362,7 +369,14 @@ class ProgGen:
                         # the counter shadows an existing variable and the bound mentions that name: the bound is
                         # evaluated BEFORE the counter is bound, so it sees the outer value
                         bound = ("bin", "&", ("bin", "+", ("var", v), ("num", r.randrange(0, 3))), ("num", 3))
+                    elif v not in scope and r.random() < p.get("own_bound", 0.04):
+                        # loop(k, k & 3): the bound is evaluated before k exists - a read of the OUTPUT k (if the device has
+                        # one and reports it), otherwise the test does not bind
+                        bound = ("bin", "&", ("var", v), ("num", 3))
                     body = self.block(scope + [v], depth + 1, r.randrange(1, 4))
+                    if r.random() < p.get("own_counter", 0.08):
+                        # the body re-binds the loop's own counter (upwards, so the loop still ends): the next pass continues from it
+                        body.insert(r.randrange(0, len(body) + 1), ("let", v, ("bin", "+", ("var", v), ("num", r.choice([0, 1, 1, 2])))))
                     out.append(("loop", v, bound, body))
                     self.dead.append(v)
                 elif kind < 0.7:
@@ -377,6 +391,13 @@ class ProgGen:
                     scope.append(w)
                     body = self.block(scope, depth + 1, r.randrange(1, 3))
                     body.append(("let", w, ("bin", "+", ("var", w), ("num", 1))))
+                    if r.random() < p.get("while_binds", 0.3):
+                        # a variable whose FIRST binding is inside the while body and that is used after `end while`: while opens
+                        # no scope, so (the loop having run at least once) it is an ordinary variable there
+                        limit = max(limit, 1)
+                        nv = self.fresh("u")
+                        body.insert(r.randrange(0, len(body)), ("let", nv, self.egen(scope)))
+                        scope.append(nv)
                     cond = ("bin", "<", ("var", w), ("num", limit))
                     if r.random() < 0.3:
                         cond = ("bin", "&", cond, ("bin", "=", ("num", 1), ("num", 1)))
@@ -650,7 +671,14 @@ def gen_run_case(cid, seed, profile=None):
             for s in b:
                 if s[0] == "row":
                     for _ in vcols:
-                        s[1].append(("X",) if rng.random() < 0.4 else ("num", rng.randrange(0, 8)))
+                        y = rng.random()
+                        if y < 0.4:
+                            s[1].append(("X",))
+                        elif y < 0.55:
+                            # a virtual signal is 64 bits wide: negative and large expected values stay as they are
+                            s[1].append(("expr", ("num", rng.choice([-1, -2, -(2 ** 63), 2 ** 63 - 1, -255, 2 ** 40]))))
+                        else:
+                            s[1].append(("num", rng.randrange(0, 8)))
                 elif s[0] == "repeat":
                     widen([s[2]])
                 elif s[0] == "loop":
